@@ -3,6 +3,7 @@
 package fx
 
 import (
+	"bytes"
 	"errors"
 	"sync"
 )
@@ -126,4 +127,26 @@ func (c *chain) Forward() uint32 {
 	c.c1 = step(c.c1)
 	c.c1 = step(c.c1)
 	return c.c1
+}
+
+// --- OWN: pooled memory must not escape
+
+var bufPool = sync.Pool{New: func() any { return new(bytes.Buffer) }}
+
+type msg struct{ Data []byte }
+
+func PoolEscape(p []byte) *msg {
+	b := bufPool.Get().(*bytes.Buffer)
+	defer bufPool.Put(b)
+	b.Reset()
+	b.Write(p)
+	return &msg{Data: b.Bytes()}
+}
+
+func PoolCopy(p []byte) *msg {
+	b := bufPool.Get().(*bytes.Buffer)
+	defer bufPool.Put(b)
+	b.Reset()
+	b.Write(p)
+	return &msg{Data: append([]byte(nil), b.Bytes()...)}
 }
